@@ -503,7 +503,7 @@ func (p c17) prefix(c *core.C, cs c17Prefix) {
 			g, err = changelog.Parse(strings.NewReader(text))
 			got = g
 			if err != nil && len(g) != 0 {
-				c.Failf("Parse returned %d entries together with an error", len(g))
+				c.Cover("outcome:entries-next-to-an-error") // not silent, hence not this property's business (C18 judges it)
 			}
 		} else {
 			got, err = parseOneLoop(text)
@@ -555,7 +555,7 @@ func (p c17) malformed(c *core.C, class, text string) {
 	if err == nil {
 		c.Failf("Parse accepted a malformed changelog (class %s) and returned %d entries\nchangelog: %q", class, len(got), text)
 	} else if len(got) != 0 {
-		c.Failf("Parse returned %d entries together with an error", len(got))
+		c.Cover("outcome:entries-next-to-an-error")
 	}
 	if _, err := parseOneLoop(text); err == nil {
 		c.Failf("ParseOne loop accepted a malformed changelog (class %s)\nchangelog: %q", class, text)
